@@ -151,7 +151,7 @@ theorem checkConstraint_undeclared_no_panic (f : File) (c : Constraint) (decl : 
 
 /-- **Every way `analyze` can panic**: `check_optional_fields`, `check_group_constraints`,
     `inline_groups`, `desugar_flags`, `check_decl_constraints`, or the size arithmetic of
-    `Schema::new` / `check_field_offsets`.  The scope, identifier, enum, size-field, fixed-field,
+    `Schema::new` / `check_field_offsets` / `check_decl_sizes`.  The scope, identifier, enum, size-field, fixed-field,
     payload, array and padding passes return diagnostics only. -/
 theorem analyze_panic_sites (f : File) (p : APanic) (h : analyze f = .panic p) :
     ∃ g, checkDeclIdentifiers f = .ok g ∧
@@ -160,7 +160,8 @@ theorem analyze_panic_sites (f : File) (p : APanic) (h : analyze f = .panic p) :
          ∃ g2, desugarFlags g1 = .ok g2 ∧ (checkDeclConstraints g2 = .panic p ∨
            (schemaPanics g2 = true ∧ p = .schemaOverflow) ∨ (Schema.build g2 = none ∧ p = .schemaLookup) ∨
            ∃ sc, Schema.build g2 = some sc ∧
-             ((schemaOverflows sc = true ∧ p = .schemaOverflow) ∨ checkFieldOffsets g2 sc = .panic p)))) := by
+             (((schemaOverflows sc || schemaSumOverflows g2 sc) = true ∧ p = .schemaOverflow) ∨ checkFieldOffsets g2 sc = .panic p ∨
+              (declSizesOverflow g2 sc = true ∧ p = .offsetOverflow))))) := by
   unfold analyze firstErr at h
   by_cases h1 : (scopeDiags f).isEmpty
   case neg => simp [h1] at h
@@ -212,16 +213,19 @@ theorem analyze_panic_sites (f : File) (p : APanic) (h : analyze f = .panic p) :
                   | some sc =>
                     simp only [hb] at h
                     refine Or.inr (Or.inr (Or.inr ⟨sc, rfl, ?_⟩))
-                    by_cases hov : schemaOverflows sc = true
+                    by_cases hov : (schemaOverflows sc || schemaSumOverflows g2 sc) = true
                     · simp only [hov, ↓reduceIte] at h; cases h; exact Or.inl ⟨hov, rfl⟩
                     · simp only [hov] at h
                       refine Or.inr ?_
                       cases hfo : checkFieldOffsets g2 sc with
                       | diags ds => simp [hfo] at h
-                      | panic q => simp only [hfo] at h; cases h; rfl
+                      | panic q => simp only [hfo] at h; cases h; exact Or.inl rfl
                       | ok _ =>
                         simp only [hfo] at h
-                        by_cases c1 : (checkDeclSizes g2 sc).isEmpty <;> simp [c1] at h
+                        by_cases hdo : declSizesOverflow g2 sc = true
+                        · simp only [hdo, ↓reduceIte] at h; cases h; exact Or.inr ⟨hdo, rfl⟩
+                        · simp only [hdo] at h
+                          by_cases c1 : (checkDeclSizes g2 sc).isEmpty <;> simp [c1] at h
 
 /-- a file with duplicate declaration identifiers, an undeclared or recursive type, … (anything
     the first two passes report) is answered with diagnostics — never a panic, whatever else it
